@@ -26,7 +26,7 @@ import vlib
 PROPS = ["C15", "C16", "C17"]
 _TECH = "TLA+ model checking (TLC) + TLC-generated behaviours replayed on the real class + TLC trace validation"
 _NOTE = ("bounded: 3-4 data PDUs per direction in the exhaustive model (no bound on connection events), behaviours to "
-         "depth 6/7 exhaustively + state/transition covers of the bounded model + random deep ones; Tx/Rx in {31,61,100}, "
+         "depth 5/6 exhaustively + state/transition covers of the bounded model + random deep ones; Tx/Rx in {31,61,100}, "
          "default PDU layout; radio ISR dispatch transcribed from nrf52.hpp (assumption isr-dispatch), the ISR itself and "
          "nrf52.cpp counter::increment are not executed; central sends only valid LLIDs; sequential (no ISR/main "
          "interleaving inside a call); trusted: TLC, harness/lldata, g++/ASan.")
@@ -137,7 +137,7 @@ def script_of(beh, i, var):
             lines.append("r %s" % op[1])
         else:
             raise vlib.ToolFailure("unknown op %r" % (op,))
-    lines += ["read"] * 4
+    lines += ["read"] * 2
     return lines
 
 
@@ -325,9 +325,9 @@ def run(c):
 
     sizes = [(61, 61), (31, 31), (100, 100), (61, 31)] if c.quick else \
             [(t, r) for t in (31, 61, 100) for r in (31, 61, 100)]
-    d_all = 5 if c.quick else 7
-    nsim, dsim = (240, 80) if c.quick else (3000, 120)
-    trans_sizes = [] if c.quick else [(31, 31), (61, 61), (31, 100), (100, 61), (61, 31)]
+    d_all = 5 if c.quick else 6
+    nsim, dsim = (240, 80) if c.quick else (1000, 100)
+    trans_sizes = [] if c.quick else [(31, 31), (61, 61)]
     # model checking, behaviour generation and the harness builds are independent: run them side by side
     with ThreadPoolExecutor(4) as ex:
         # 1. design level: complete state graph of the bounded instance
@@ -371,9 +371,11 @@ def run(c):
             per = max(1, len(b_sim) // len(sizes))
             for n, (t, r) in enumerate(sizes):
                 plan.append(("sim", t, r, b_sim[n * per:(n + 1) * per]))
-            plan.append(("all", 31, 31, b_all[::7]))
-            plan.append(("all", 100, 61, b_all[3::7]))
-            plan.append(("all", 61, 100, b_all[5::7]))
+            plan.append(("all", 31, 31, b_all[::5]))
+            plan.append(("all", 100, 61, b_all[2::5]))
+            plan.append(("all", 61, 100, b_all[4::5]))
+    import time
+    c.note("phase 1+2 (model checking, builds, generation) done at %.0fs" % (time.time() - c.t0))
     c.extra["recipe"] = {k: list(v) for k, v in rc.items()}
     c.sample({"mode": mode, "behaviour": b_all[len(b_all) // 2]})
     c.sample({"mode": mode, "behaviour": b_tr[-1]})
@@ -400,7 +402,9 @@ def run(c):
                 rn.record(exes[(tx, rx)], tx, rx, var, sub, True, vtag + "+room", off)
                 summary.append((vtag + "+room", len(sub), True))
             off += len(behs)
+    c.note("phase 3 (replay on the real class) done at %.0fs" % (time.time() - c.t0))
     rejected = rn.validate()
+    c.note("phase 4 (trace validation) done at %.0fs" % (time.time() - c.t0))
     for vtag, n, room in summary:
         c.note("%s: %d behaviours, %d rejected (room rule %s)" % (vtag, n, rejected.get(vtag, 0), "on" if room else "off"))
     c.exhaustive = True
@@ -412,7 +416,7 @@ def run(c):
     need = ["x:lost", "x:crc", "x:nobuf", "x:ok", "crx:lost", "crx:ok", "crx:nak", "commit:ok", "commit:refused",
             "read:pdu", "read:none"] + (["x:mic"] if mode != "plain" else [])
     missing = [k for k in need if not rn.counts.get(k)]
-    if missing:
+    if missing and not c.violations:          # (a violation is a verdict; vacuity only matters for a green run)
         raise vlib.ToolFailure("vacuous: no validated event of class %s" % missing)
 
 
